@@ -24,7 +24,13 @@ pub struct DropOther {
     pub name: String,
     pub if_exists: bool,
 }
+pub struct CreateOther {
+    pub name: String,
+    pub if_not_exists: bool,
+    pub or_replace: bool,
+}
 pub enum DdlStatement {
+    CreateOther(CreateOther),
     DropOther(DropOther),
     CreateTable(CreateTable),
     CreateThing(CreateThing),
@@ -122,5 +128,26 @@ impl SessionContext {
             (_, true) => self.return_empty_dataframe(),
             (_, _) => Err(DfError::Execution("missing".to_string())),
         }
+    }
+    /// correct, written with early returns, a boolean probe and a private helper that registers
+    pub fn create_other(&self, cmd: CreateOther) -> Result<DataFrame, DfError> {
+        let exists = self.table(&cmd.name).is_ok();
+        if exists {
+            if cmd.if_not_exists && cmd.or_replace {
+                return Err(DfError::Execution("both".to_string()));
+            }
+            if cmd.if_not_exists {
+                return self.return_empty_dataframe();
+            }
+            if !cmd.or_replace {
+                return Err(DfError::Execution("exists".to_string()));
+            }
+            self.deregister_table(&cmd.name)?;
+        }
+        self.add_fresh(&cmd.name)?;
+        self.return_empty_dataframe()
+    }
+    fn add_fresh(&self, name: &str) -> Result<(), DfError> {
+        self.register_table(name, 1)
     }
 }
